@@ -3,7 +3,7 @@
    goroutines that have sent; hence the buffer (capacity n) never fills while a sender is pending. *)
 From Coq Require Import List ZArith Bool Arith Lia Permutation.
 Import ListNotations.
-From GU Require Import C12.Conc C12.Model.
+From GU Require Import C12.Conc C12.Facts C12.Gen C12.Model.
 
 (* results of the goroutines that have sent, in index order *)
 Fixpoint sent_outs (w : list wst) (outs : list pres) : list pres :=
@@ -116,7 +116,7 @@ Section Par.
     - exists []. simpl. repeat split; auto. unfold kept. destruct keep; reflexivity.
   Qed.
 
-  Lemma PI_step s l s' : PI s -> p_step keep outs s l = Some s' -> PI s'.
+  Lemma PI_step s l s' : PI s -> p_step (length outs) keep outs s l = Some s' -> PI s'.
   Proof.
     intros (Hl & Hp & recv & Hs & Hr & Hm) E.
     destruct s as [w ch m sl rc]; simpl in *.
@@ -157,13 +157,13 @@ Section Par.
       unfold n in *. lia.
   Qed.
 
-  Lemma PI_run sched : PI (run (p_step keep outs) (p_init outs) sched).
-  Proof. apply (inv_run (p_step keep outs) PI PI_step). exact PI_init. Qed.
+  Lemma PI_run sched : PI (run (p_step (length outs) keep outs) (p_init outs) sched).
+  Proof. apply (inv_run (p_step (length outs) keep outs) PI PI_step). exact PI_init. Qed.
 
   (* ---- consequences of the invariant ---- *)
 
   (* a goroutine that has its result is never blocked on the send: the buffer has room *)
-  Lemma PI_send_enabled s i : PI s -> nth_error (p_w s) i = Some WCalled -> p_step keep outs s (PSend i) <> None.
+  Lemma PI_send_enabled s i : PI s -> nth_error (p_w s) i = Some WCalled -> p_step (length outs) keep outs s (PSend i) <> None.
   Proof.
     intros (Hl & Hp & recv & Hs & Hr & Hm) Hw.
     destruct s as [w ch m sl rc]; simpl in *. rewrite Hw.
@@ -196,7 +196,7 @@ Section Par.
 
   (* a state in which nothing can move is final: every goroutine has sent (so has been invoked, once) and the caller
      has returned *)
-  Lemma PI_quiescent_final s : PI s -> (forall l, p_step keep outs s l = None) -> p_final s.
+  Lemma PI_quiescent_final s : PI s -> (forall l, p_step (length outs) keep outs s l = None) -> p_final s.
   Proof.
     intros HI Hq.
     pose proof HI as (Hl & Hp & recv & Hs & Hr & Hm).
@@ -235,7 +235,7 @@ Section Par.
     - specialize (IH i H Hlt). lia.
   Qed.
 
-  Lemma p_rank_step s l s' : p_step keep outs s l = Some s' -> p_rank s' < p_rank s.
+  Lemma p_rank_step s l s' : p_step (length outs) keep outs s l = Some s' -> p_rank s' < p_rank s.
   Proof.
     destruct s as [w ch m sl rc]. unfold p_rank. destruct l as [i|i| |]; simpl; intros E.
     - destruct (nth_error w i) as [[]|] eqn:Ew; try discriminate. inversion E; subst; simpl.
@@ -258,9 +258,9 @@ Section Par.
     rewrite E. lia.
   Qed.
 
-  Lemma p_steps_bounded sched : effective (p_step keep outs) (p_init outs) sched <= 3 * n + 1.
+  Lemma p_steps_bounded sched : effective (p_step (length outs) keep outs) (p_init outs) sched <= 3 * n + 1.
   Proof.
-    pose proof (effective_bounded (p_step keep outs) (fun _ => True) (fun _ _ _ _ _ => I) p_rank
+    pose proof (effective_bounded (p_step (length outs) keep outs) (fun _ => True) (fun _ _ _ _ _ => I) p_rank
                   (fun s t s' _ E => p_rank_step s t s' E) sched (p_init outs) I) as H.
     rewrite p_rank_init in H. lia.
   Qed.
@@ -268,16 +268,16 @@ End Par.
 
 (* ---- the statements used by Props.v ---- *)
 
-Lemma parallelise_once_each_l : forall keep outs sched,
-  let s := run (p_step keep outs) (p_init outs) sched in
+Lemma parallelise_once_each_n : forall keep outs sched,
+  let s := run (p_step (length outs) keep outs) (p_init outs) sched in
   (* at any instant: no argument's action has been invoked more than once, nobody is blocked on the send *)
   (length (p_w s) = length outs /\ Forall (fun st => calls_of st <= 1) (p_w s) /\
-   forall i, nth_error (p_w s) i = Some WCalled -> p_step keep outs s (PSend i) <> None) /\
+   forall i, nth_error (p_w s) i = Some WCalled -> p_step (length outs) keep outs s (PSend i) <> None) /\
   (* whenever Parallelise has returned r, r is allowed *)
   (forall r, p_main s = MDone r -> par_allowed keep outs r) /\
   (* when nothing can move any more: every action has been invoked exactly once, every goroutine has finished,
      Parallelise has returned *)
-  ((forall l, p_step keep outs s l = None) ->
+  ((forall l, p_step (length outs) keep outs s l = None) ->
      Forall (fun st => st = WSent /\ calls_of st = 1) (p_w s) /\ exists r, p_main s = MDone r /\ par_allowed keep outs r).
 Proof.
   intros keep outs sched s. pose proof (PI_run keep outs sched) as HI. fold s in HI.
@@ -291,9 +291,28 @@ Proof.
     eapply Forall_impl; [|exact Hall]. intros st ->. split; reflexivity.
 Qed.
 
-Lemma parallelise_terminates_l : forall keep outs sched,
-  effective (p_step keep outs) (p_init outs) sched <= 3 * length outs + 1.
+Lemma parallelise_terminates_n : forall keep outs sched,
+  effective (p_step (length outs) keep outs) (p_init outs) sched <= 3 * length outs + 1.
 Proof. intros. apply p_steps_bounded. Qed.
+
+(* ... for the channel capacity GENERATED from the source: the statements above need capacity = number of arguments
+   (with a smaller buffer a sender stays blocked after an early error return); [par_cap gen_facts n] must compute to n *)
+Lemma gen_cap_is_len : forall n, par_cap gen_facts n = n.
+Proof. reflexivity. Qed.
+
+Lemma parallelise_once_each_l : forall keep outs sched,
+  let cap := par_cap gen_facts (length outs) in
+  let s := run (p_step cap keep outs) (p_init outs) sched in
+  (length (p_w s) = length outs /\ Forall (fun st => calls_of st <= 1) (p_w s) /\
+   forall i, nth_error (p_w s) i = Some WCalled -> p_step cap keep outs s (PSend i) <> None) /\
+  (forall r, p_main s = MDone r -> par_allowed keep outs r) /\
+  ((forall l, p_step cap keep outs s l = None) ->
+     Forall (fun st => st = WSent /\ calls_of st = 1) (p_w s) /\ exists r, p_main s = MDone r /\ par_allowed keep outs r).
+Proof. intros keep outs sched. cbv zeta. rewrite gen_cap_is_len. exact (parallelise_once_each_n keep outs sched). Qed.
+
+Lemma parallelise_terminates_l : forall keep outs sched,
+  effective (p_step (par_cap gen_facts (length outs)) keep outs) (p_init outs) sched <= 3 * length outs + 1.
+Proof. intros. rewrite gen_cap_is_len. apply parallelise_terminates_n. Qed.
 
 (* the executable check used by the correspondence accepts everything the property allows: an implementation result it
    rejects is outside [par_allowed] *)
